@@ -27,9 +27,8 @@ T = {
          "Partial / pending writes of the AsyncWrite half are harness policies (one/pend/pendone): the model hands whole packets to the transport, so the fragmentation clause rests on the correspondence run and the oracle. Spec/Client.lean is my reading of MQTT 5. Script-level theorems need requests inside MQTT 5's domain (ScriptInDomain, executable)."),
  'C02': ("dec_of_spec (+ one theorem per packet type): for every well-formed server packet p (independent spec encoder, decidable WF) "
          "decodeRx (encodeServer p) = ok (expected p): all 11 types, all short forms, any property order, repeated user properties, "
-         "standard defaults for absent properties.",
-         "The accessor layer (rsp.rs/error.rs/collections.rs) is exercised by the correspondence run through every public accessor, not "
-         "modelled separately; std::str::from_utf8 is mirrored by utf8Valid."),
+         "standard defaults for absent properties. Whole executions (Properties/C02World, C03World): for a well-formed server packet p the observation the client logs carries exactly the SPEC-side values of p — *_accessors per packet type (DONE with reason / reason string / user properties in order / reason list, RET connack with every default spelled out, RET auth, RET disconnected or Ok for reason 0 in all three forms, the ITEM a stream yields field by field); fed_server_packet_is_decoded ties it to scripts (any chunking).",
+         "The accessor layer (rsp.rs/error.rs/collections.rs) is the model's observation rendering; it is exercised by the correspondence run through every public accessor (evidence lists all 137 public methods of src/client and that the harness calls each); std::str::from_utf8 is mirrored by utf8Valid."),
  'C03': ("12 theorems over the model of RxPacketStream::poll_next, for unbounded streams and every chunking: "
          "framing_chunking_independent, framing_same_as_whole_packets, framing_eof_exact, framing_no_spurious_end, "
          "framing_malformed_exact, framing_no_lost_wakeup, framing_reads_positive, framing_index_safe. Whole executions (Properties/C03World): for every script the frames the context hands to the decoder are a prefix of the reference framing of everything fed, whatever the chunking (decoded_frames_are_reference_frames, chunking_independence_world), a sleeping context has consumed every complete frame (asleep_context_has_consumed_everything), SocketClosed is returned only for a cause (socket_closed_only_for_a_cause).",
@@ -66,18 +65,18 @@ T = {
          "Histories with non-conformant acknowledgements leave the monitor's domain (stated in the monitor). Resumed sessions re-arm the quota "
          "to R while re-sent packets are in flight: outside C10's single-connection histories, noted in DESIGN.md."),
  'C11': ("alloc_closed_form, alloc_nonzero, alloc_unique_window, alloc_period (any two of fewer than 65535 consecutive allocations differ, "
-         "never 0, across the wrap), the same for subscription identifiers, alloc_interleaving_irrelevant, startOp_allocates_before_build.",
+         "never 0, across the wrap), the same for subscription identifiers, alloc_interleaving_irrelevant, startOp_allocates_before_build. Whole executions (Properties/C11World): identifiers enter the outstanding set only by allocation (identifiers_enter_only_by_allocation); along every execution path satisfying the window condition (allocAge < 65535 for every outstanding identifier — WindowOk; shown tight) the outstanding identifiers are pairwise distinct at every moment and a written identifier differs from all others outstanding (outstanding_identifiers_pairwise_distinct, written_identifier_differs_from_all_others); unconditional below 65535 identifier-taking operations; subscription identifiers non-zero and handed out once; the first poll never panics in any world.",
          "The multi-thread case rests on the atomicity of AtomicU16::fetch_update (one alloc step per operation); exercised single-threaded "
          "with > 65536 operations from three clones."),
  'C12': ("sizeOk_iff, too_big_refused (state unchanged, not one byte written, only the error reply), fits_written_whole, maxPkt_from_connack; "
-         "with *_packetLen of C01 the length compared is the true encoded length. Whole executions (Properties/CtxLift): serving never changes the limit (world_poll_maxPkt); the context state moves only by the documented transitions (world_ctx_transitions).",
+         "with *_packetLen of C01 the length compared is the true encoded length. Whole executions (Properties/CtxLift): serving never changes the limit (world_poll_maxPkt); the context state moves only by the documented transitions (world_ctx_transitions). Whole executions (Properties/C12World): refused iff maxPkt = some M and M < L, exact at L = M, with L the encoded length of the completed request (request_refused_iff_longer_than_limit); a refusal leaves the context, the transport and every other oneshot untouched (too_big_request_in_world); every handler call of every script refuses exactly the too big (every_handler_call_refuses_exactly_the_too_big); the limit in force is the last announced one and CONNECT options never set it (limit_in_force_is_last_announced); DONE MaximumPacketSizeExceeded iff such a refusal.",
          "Exactness at L = M is also swept by the correspondence run (M = 1..47 around every kind's L)."),
  'C13': ("handlePkt_flow / handleMsg_flow / flowRet_mapping, runLoop_returns_only_for_a_cause, handleClosed_only_when_no_sender, "
          "nothing_after_return, first_response_mapping, connect_refused_before_writing. Whole executions (Properties/C13World): RET lines are logged only by a poll of the context task and at most once per call (each_call_returns_at_most_once); every RET run r of every transcript has its documented cause per result (run_returns_only_for_a_cause, run_result_causes) and a poll that leaves run() pending saw none (run_pending_only_without_cause); nothing is written after a return until the next call (nothing_written_after_return, nothing_written_after_user_disconnect); the same for connect()/authorize().",
          "select! order between a ready packet and a ready message is outside the model (scripts keep one kind pending)."),
  'C14': ("dropCtx_closes, dropCtx_wakes, closed_slot_completes, start_after_drop, stream_drains_then_ends, full_slot_still_delivers. Whole executions (Properties/C14World): the sender-ownership invariant holds in every reachable world (ownInv_script); once the context is dropped every oneshot of a waiting operation is closed or full, every channel's sender is gone, the executor provably reaches quiescence (executor_quiescent_after_drop) and nothing is left pending except tasks the script itself holds (nothing_pending_after_drop); an operation started afterwards fails at once.",
          "Rests on the channel parameters (a dropped sender wakes the receiver). The stream half needs pairwise distinct OP identifiers (channels are named after them)."),
- 'C15': ("dropOp_frame, late_ack_absorbed, bookkeeping_independent_of_waiter, dead_stream_only_unregisters, drop_stream_frame, runHandler_c.",
+ 'C15': ("dropOp_frame, late_ack_absorbed, bookkeeping_independent_of_waiter, dead_stream_only_unregisters, drop_stream_frame, runHandler_c. Whole executions (Properties/C15World): cancelling_is_never_polling_again — for every script the world after dropping a future equals, up to that future's private state and its own transcript lines, the world after holding it forever (so every other DONE, every RET, ITEM and wire line is the same: everybody_else_completes_the_same); the same for dropped streams; no sequence of drops makes run() return while a handle exists; the late acknowledgement frees the slot whoever waits; K1 is stated and proved as a theorem pair (k1_no_pubrel_is_ever_sent, k1_slot_stays_taken).",
          "One known finding K1 (known_findings.json): a QoS 2 publish future dropped before its PUBREL was sent leaves its exchange and slot "
          "unfinished — reported as KNOWN-FINDING, any other violation is reported."),
  'C16': ("pollOp_spurious, pollStream_spurious, pollCtx_spurious_running/connecting (a poll without a wakeup changes only registration flags), "
@@ -85,7 +84,7 @@ T = {
          "The theorems are about the executor of PROTOCOL.md; read chunkings and write policies are compared on the implementation by the oracle (groups of scripts), and implementation = model on each."),
  'C17': ("sessionExpired_iff, resume_first_connection, resume_not_expired (re-sends exactly the queue, in order, keeps the waiters), resume_expired "
          "(re-sends nothing, drops every waiter), retx_is_unfinished / resume_resends_unfinished (the queue is the fold over the history: "
-         "DUP-marked PUBLISH without PUBACK/PUBREC, PUBREL without PUBCOMP), acked_not_resent, retx_order_preserved, retx_dup_marked, setDup_spec. Whole executions (Properties/CtxLift): the first poll of run() after a recorded disconnection re-sends exactly the retransmit queue before anything else (world_run_poll_is_serve) and the queue after every poll is the unfinished handshakes of its history (world_poll_retx). Properties/HistWorld: the retransmit queue is the unfinished handshakes of the whole session history over all connections (c17_retx_is_session_unfinished); every run() prelude re-sends exactly them before anything else, or nothing and drops every waiter when expired (c17_every_run_prelude, c17_resent_before_anything_else).",
+         "DUP-marked PUBLISH without PUBACK/PUBREC, PUBREL without PUBCOMP), acked_not_resent, retx_order_preserved, retx_dup_marked, setDup_spec. Whole executions (Properties/CtxLift): the first poll of run() after a recorded disconnection re-sends exactly the retransmit queue before anything else (world_run_poll_is_serve) and the queue after every poll is the unfinished handshakes of its history (world_poll_retx). Properties/HistWorld: the retransmit queue is the unfinished handshakes of the whole session history over all connections (c17_retx_is_session_unfinished); every run() prelude re-sends exactly them before anything else, or nothing and drops every waiter when expired (c17_every_run_prelude, c17_resent_before_anything_else). Properties/C17World: an expired session closes every waiter and the abandoned operations log ContextExited within the same script step unless held (expired_session_fails_abandoned_operations), its streams end after their backlog, nothing is re-sent; a live session keeps every waiter and an acknowledgement on the new connection completes the ORIGINAL future with its content (ack_on_new_connection_completes_original_future).",
          "The clock is a parameter (seconds since disconnection) and hook H1 records the disconnection (production code never does)."),
 }
 
